@@ -766,7 +766,72 @@ func sanitize(s string) string {
 	return sb.String()
 }
 
-// thirdParty: stubs for code outside the repository (filled in as properties need them).
+// thirdParty: stubs for code outside the repository.  Each is part of the claim (Exec.stubs).
+var crsMarkerType = types.NewNamed(types.NewTypeName(0, nil, "crs", nil), types.NewStruct(nil, nil), nil)
+
+var epsgCodes []int64 // filled by loadProgram from the real wgs84 source (epsg.go)
+
 func (e *Exec) thirdParty(fn *ssa.Function, name string, args []Value) (Value, bool) {
+	switch name {
+	case "github.com/wroge/wgs84.EPSG":
+		e.stubs["wgs84.EPSG(): fresh repository object, effect-free"] = true
+		return Ptr{Obj: e.newObj(OpaqueV{"wgs84 repository"}, "wgs84.EPSG()")}, true
+	case "(*github.com/wroge/wgs84.Repository).Code":
+		c := args[1].(Int)
+		if !c.IsC {
+			c = e.concretize(iConv(c, 64, true), "EPSG code", 64)
+		}
+		e.stubs["(*wgs84.Repository).Code(c): nil iff c is not in the EPSG table read from the real library's source"] = true
+		known := false
+		for _, k := range epsgCodes {
+			if k == c.sval() {
+				known = true
+			}
+		}
+		if !known {
+			return Iface{}, true
+		}
+		return Iface{T: crsMarkerType, V: mkI64(c.sval())}, true
+	case "github.com/wroge/wgs84.SafeTransform":
+		e.stubs["wgs84.SafeTransform(from,to)(a,b,c): error iff from or to is nil or an uninterpreted out-of-bounds predicate of (from,to,a,b,c) holds; otherwise three uninterpreted functions of (from,to,a,b,c)"] = true
+		return Closure{Stub: "wgs84tx", Binds: []Value{args[0], args[1]}}, true
+	}
 	return nil, false
+}
+
+func (e *Exec) stubCall(cl Closure, args []Value) Value {
+	switch cl.Stub {
+	case "wgs84tx":
+		from := e.concreteIface(cl.Binds[0].(Iface))
+		to := e.concreteIface(cl.Binds[1].(Iface))
+		zero := mkFloat(0)
+		if from.T == nil || to.T == nil {
+			return Tuple{zero, zero, zero, e.newErr()}
+		}
+		if !e.relaxed {
+			e.unsupported("the wgs84 transform stub needs the real-sorted (relaxed / structure-only) float encoding")
+		}
+		tag := fmt.Sprintf("%d_%d", from.V.(Int).sval(), to.V.(Int).sval())
+		a, b, c := e.fT(args[0].(Float)), e.fT(args[1].(Float)), e.fT(args[2].(Float))
+		decl := func(n, sort string) {
+			if !e.ufs[n] {
+				e.ufs[n] = true
+				e.sol.Send("(declare-fun " + n + " (Real Real Real) " + sort + ")")
+			}
+		}
+		decl("tx_oob_"+tag, "Bool")
+		oob := symBool("(tx_oob_" + tag + " " + a + " " + b + " " + c + ")")
+		if e.decide(oob) {
+			return Tuple{zero, zero, zero, e.newErr()}
+		}
+		var out Tuple
+		for _, ax := range []string{"x", "y", "z"} {
+			n := "tx_" + ax + "_" + tag
+			decl(n, "Real")
+			out = append(out, e.nmR(Float{Sym: "(" + n + " " + a + " " + b + " " + c + ")"}))
+		}
+		return append(out, Iface{})
+	}
+	e.unsupported("stub %s", cl.Stub)
+	return nil
 }
